@@ -8,7 +8,7 @@ ENV = "cd /repo && GOFLAGS=-mod=mod GOPROXY=off GOSUMDB=off GOTOOLCHAIN=local"
 checks = {
  "C01": dict(level="model_checking", engine="HIST", ref="DESIGN.md §5 C01",
    technique="explicit-state BFS over API histories of the real provider with a lock-step reference model; every transition replayed on a fresh instance, global state deduplication",
-   text="Bounded model checking of the real provider: every history of authorize/redeem/refresh/revoke/advance operations up to the stated depth over <=2 concurrent grants, 3 flows, 2 token strategies and 3 refresh-scope configurations is executed against ory/fosite and compared step by step with a reference model (single use, invalid_grant on replay, whole descendant family dead); after every transition every token ever issued is introspected.",
+   text="Bounded model checking of the real provider: every history of authorize/redeem/refresh/revoke/advance operations up to the stated depth over <=2 concurrent grants, 3 flows, 2 token strategies and 3 refresh-scope configurations is executed against ory/fosite and compared step by step with a reference model (single use, invalid_grant on replay, whole descendant family dead); after every transition every token ever issued is introspected. Plus: 2..3 (4) overlapping redemptions of one code with every interleaving of their NewAccessRequest / NewAccessResponse phases (at most one succeeds).",
    note="Bounded: depth/grants/alphabet as reported in evidence.bounds. Trusted: the harness drivers (HTTP round trips through httptest), the overlay clock rewrite, the deterministic random source; reference MemoryStore behind a logging proxy."),
  "C03": dict(level="model_checking", engine="SEQ", ref="DESIGN.md §5 C03",
    technique="exhaustive enumeration of all redemption-attempt sequences up to a depth on the real token endpoint, judged by a reference predicate",
@@ -16,7 +16,7 @@ checks = {
    note="One-sided oracle exactly as the statement; verifier alphabet is the 7 listed kinds; PKCE parameters other than those listed are out of the alphabet."),
  "C04": dict(level="model_checking", engine="HIST", ref="DESIGN.md §5 C04",
    technique="explicit-state BFS over API histories of the real provider with a lock-step reference model (refresh chains, replay of any generation), global state deduplication",
-   text="Every history up to the stated depth over <=2 grants (code, hybrid, password, device, OIDC public) in which every refresh token ever issued remains presentable (by owner or foreign client), with revocation and time advance interleaved; model: one use per refresh token, rotation kills presented RT and sibling AT, reuse answers invalid_grant and kills the family, other grants untouched; every token introspected after every step.",
+   text="Every history up to the stated depth over <=2 grants (code, hybrid, password, device, OIDC public) in which every refresh token ever issued remains presentable (by owner or foreign client), with revocation and time advance interleaved; model: one use per refresh token, rotation kills presented RT and sibling AT, reuse answers invalid_grant and kills the family, other grants untouched; every token introspected after every step. Plus: 2..3 (4) overlapping exchanges of one refresh token with every interleaving of their NewAccessRequest / NewAccessResponse phases (at most one succeeds).",
    note="Bounded by depth (chain length <= depth-1). Where the statement is silent (state after refusing a never-used token) the model adopts the implementation's answer and counts a dont_care."),
  "C08": dict(level="model_checking", engine="HIST", ref="DESIGN.md §5 C08",
    technique="explicit-state BFS over API histories with revocation by owner / foreign / unauthenticated callers and all token_type_hints on tokens in every liveness state; store-dump equality for 'changes nothing'",
@@ -31,7 +31,7 @@ checks = {
 checks.update({
  "C02": dict(level="exploration", engine="ENUM", ref="DESIGN.md §5 C02",
    technique="exhaustive enumeration of the full product of attempt dimensions at several history positions on the real provider, reference predicate + store-dump equality",
-   text="Every combination of owner client (confidential/public, with/without redirect_uri sent) x flow x history position x token strategy x presenter x redirect_uri form x smuggled parameter x code age is executed as authorize -> attempt -> legitimate redemption -> introspection on a fresh provider. Issuance only for owner + string-equal redirect_uri + unexpired; refusals must be invalid_grant for foreign client / different redirect_uri, leave the store dump unchanged and the code redeemable; issued tokens carry exactly the grant.",
+   text="Every combination of owner client (confidential/public, with/without redirect_uri sent) x flow x history position x token strategy x presenter x redirect_uri form x smuggled parameter (incl. partial consent) x code age is executed as authorize -> attempt -> legitimate redemption -> introspection on a fresh provider. Issuance only for owner + string-equal redirect_uri + unexpired; refusals must be invalid_grant for foreign client / different redirect_uri, leave the store dump unchanged and the code redeemable; issued tokens carry exactly the grant.",
    note="Alphabets are those listed in evidence.bounds; code ages are 5 s away from the expiry instant (expiry rounding is C07)."),
  "C05": dict(level="exploration", engine="ENUM", ref="DESIGN.md §5 C05",
    technique="exhaustive enumeration of the full product of grant / request / registration-change / configuration dimensions on the real provider against independent reference strategies",
@@ -50,14 +50,14 @@ checks.update({
    note="Documentation-undefined inputs (empty segments absorbed by a trailing wildcard, host case) are don't-care."),
  "C16": dict(level="model_checking", engine="SEQ", ref="DESIGN.md §5 C16",
    technique="exhaustive enumeration (iterative deepening) of all operation sequences up to a depth over <=2 device flows on the real provider with a lock-step model, for the reference store and a contract-following store",
-   text="Every sequence of device_auth / accept / accept-with-replaced-session / reject / poll (right, wrong, wrong client with body client_id; genuine, forged random part, forged with the user-code signature) / advance up to depth 5 (one flow) and 4 (two flows) [7/6 thorough], on both stores; tokens only for accepted, unexpired, unconsumed flows polled by the right client with the genuine code; error classes where exactly one clause applies; replay on the contract store must leave the first pair inactive; codes reach storage only as signatures.",
+   text="Every sequence of device_auth / accept / accept-with-replaced-session / reject / poll (right, wrong, wrong client with body client_id; genuine, forged random part, forged with the user-code signature) / advance up to depth 5 (one flow) and 4 (two flows) [7/6 thorough], on both stores; tokens only for accepted, unexpired, unconsumed flows polled by the right client with the genuine code; error classes where exactly one clause applies; replay on the contract store must leave the first pair inactive; codes reach storage only as signatures; overlapping polls of one device code (API-phase interleavings) yield tokens at most once.",
    note="randx user-code randomness cannot be intercepted; checked for distinctness only."),
 })
 
 checks.update({
  "C17": dict(level="model_checking", engine="SEQ", ref="DESIGN.md §5 C17",
    technique="exhaustive enumeration (iterative deepening) of all operation sequences up to a depth over <=2 pushed requests on the real provider with a lock-step model; every started authorization is carried through redemption and compared with the pushed values",
-   text="Every sequence of push (6 variants incl. failed authentication, header/body client mismatch, request containing request_uri) / use(request_uri, right or wrong client, 10 conflicting extra parameters) / use(unknown or foreign-prefix URI) / plain authorize / advance up to depth 4 (5 thorough), for enforcement on/off and default/custom prefix. A request_uri starts at most one authorization, only for its client, only before expiry; the resulting redirect, state, response delivery, stored form values, token scope/audience/client, PKCE binding and ID-token nonce equal the pushed values.",
+   text="Every sequence of push (6 variants incl. failed authentication, header/body client mismatch, request containing request_uri) / use(request_uri, right or wrong client, 10 conflicting extra parameters, or with a failing DeletePARSession) / use(unknown or foreign-prefix URI) / plain authorize / advance up to depth 4 (5 thorough), for enforcement on/off and default/custom prefix. A request_uri starts at most one authorization, only for its client, only before expiry; the resulting redirect, state, response delivery, stored form values, token scope/audience/client, PKCE binding and ID-token nonce equal the pushed values.",
    note="Survival of a request_uri after a refused attempt and parameters that were not pushed at all are not pinned by the statement (recorded as notes)."),
 })
 
@@ -71,7 +71,7 @@ checks.update({
 checks.update({
  "C11": dict(level="exploration", engine="ENUM", ref="DESIGN.md §5 C11",
    technique="exhaustive enumeration of a URI mutation grammar (all compositions up to a depth) x registered sets x response modes x error timings against the real authorization and PAR endpoints; written bytes judged by an independent RFC 3986 splitter",
-   text="For 11 registered-URI sets, every composition of <=1 (quick) / <=2 (thorough) of 60 mutations of a registered URI is requested under 6 response type/mode combinations and 7 error timings (and through PAR); whenever a Location header or form_post action is written, its target (minus response parameters) must be identical to a registered URI or an http loopback-literal variant with equal host/path/query, absolute and fragment-free; codes never go to plain-http non-local targets; a missing redirect_uri with several registered never redirects.",
+   text="For 14 registered-URI sets, every composition of <=1 (quick) / <=2 (thorough) of 60 mutations of a registered URI is requested under 6 response type/mode combinations and 7 error timings (and through PAR); whenever a Location header or form_post action is written, its target (minus response parameters) must be identical to a registered URI or an http loopback-literal variant with equal host/path/query, absolute and fragment-free; codes never go to plain-http non-local targets; a missing redirect_uri with several registered never redirects.",
    note="Query permutations/re-encodings and scheme case count as identical; percent-decoded-equal loopback paths are don't-care. Known finding: form_post with non-http(s) schemes (see known_findings.json)."),
 })
 
@@ -85,7 +85,7 @@ checks.update({
 checks.update({
  "C13": dict(level="exploration", engine="ENUM", ref="DESIGN.md §5 C13",
    technique="exhaustive enumeration of five product groups (registration x request) against the real authorization endpoint, one-sided acceptance conditions; issued codes carried to the token endpoint",
-   text="G1 response types (8 registrations x 4 grant sets x public x every ordered list of <=3 tokens incl. duplicates/unknown/empty x openid), G2 response modes, G3 state/nonce lengths around the threshold for two entropy settings, G4 redirect_uri presence x openid x flows x grant sets, G5 request objects (14 variants: registered/other/unknown keys, RS/ES/PS/HS/none, tampered, request_uri registered/unregistered/unfetchable/both x 6 registered algorithms): an accepted request satisfies every condition of the statement; access and ID tokens never appear in the query; state is echoed on every redirect; a client without authorization_code never redeems a code; request-object parameters are honoured only for registered key+algorithm.",
+   text="G1 response types (8 registrations x 4 grant sets x public x every ordered list of <=3 tokens incl. duplicates/unknown/empty x openid), G2 response modes, G3 state/nonce lengths around the threshold for two entropy settings, G4 redirect_uri presence x openid x flows x grant sets, G5 request objects (14 variants: registered/other/unknown keys, RS/ES/PS/HS/none, tampered, request_uri registered/unregistered/unfetchable/both x 6 registered algorithms): an accepted request satisfies every condition of the statement; access and ID tokens never appear in the query; state is echoed on every redirect; a client without authorization_code never redeems a code; request-object parameters are honoured only for registered key+algorithm; G6: request objects verified through jwks_uri with the real fetcher and cache (look-alike URIs of two tenants).",
    note="Cross terms between groups are not covered. Don't-care: hybrid code+id_token ID token without implicit grant; unsigned request object when no algorithm is registered."),
 })
 
@@ -99,15 +99,15 @@ checks.update({
 checks.update({
  "C15": dict(level="model_checking", engine="SCHED+ENUM", ref="DESIGN.md §5 C15",
    technique="stateless depth-first schedule exploration of the real token endpoint under a cooperative scheduler (all interleavings of the storage steps of 2 simultaneous presentations, preemption-bounded for 3), plus exhaustive enumeration of header x key x claim-deviation grids",
-   text="Schedules: 2 and 3 simultaneous presentations of one client assertion / one JWT-bearer assertion; every interleaving at storage-call granularity for 2 threads (unbounded), preemption bound 2 (4 thorough) for 3 threads, and lock granularity with bound 2; on every complete execution at most one presentation of a jti succeeds. Grid: 6 header algorithms x 3 kid x 3 signing keys x 28 single-claim deviations (absent / wrong type / wrong value / boundary times incl. fractional exp) x scope-vs-key-scope x optional-claim configs x 3 replay positions, one-sided against the statement.",
+   text="Schedules: 2 and 3 simultaneous presentations of one client assertion / one JWT-bearer assertion; every interleaving at storage-call granularity for 2 threads (unbounded), preemption bound 2 (4 thorough) for 3 threads, and lock granularity with bound 2; on every complete execution at most one presentation of a jti succeeds. Grid: 6 header algorithms x 3 kid x 3 signing keys x 28 single-claim deviations (absent / wrong type / wrong value / boundary times incl. fractional exp) x scope-vs-key-scope x optional-claim configs x 3 replay positions, one-sided against the statement; overlapping presentations at API-phase granularity.",
    note="Scheduling points: storage calls, random reads, lock acquisitions (vsync shim); unknown kid and future iat are don't-care."),
 })
 
 checks.update({
  "C18": dict(level="fault_enumeration", engine="FAULT", ref="DESIGN.md §5 C18",
    technique="exhaustive storage-fault and crash-point enumeration on the real provider: every storage call of every flow x error kind, every crash point, fault pairs, on a plain and a transactional (real rollback) proxy store, followed by retry and attacker replays",
-   text="For 19 flows the storage-call trace of the target request is recorded; every call index x {generic, not-found, inactive, serialization conflict} (BeginTX/Commit/Rollback included), a crash before every call, and pairs (first fault anywhere, second within the next 6 calls) are injected. A failed request carries no token/code; serialization conflicts on refresh are retryable; begin is matched by exactly one commit or rollback and never followed by a commit after a failed write; after a rolled-back failure the code/token records equal the records before the request and the holder's retry succeeds; attacker variants (foreign client, missing/wrong verifier, replay) stay refused; a revocation that reports success is effective.",
-   note="Sentinel answers (not-found / inactive) at Get*/Revoke* calls are another store state, not a failure (don't-care). Record equality ignores session expiry fields."),
+   text="For 20 flows the storage-call trace of the target request is recorded; every call index x {generic, not-found, inactive, serialization conflict} (BeginTX/Commit/Rollback included), a crash before every call, and pairs (first fault anywhere, second within the next 6 calls) are injected. A failed request carries no token/code; serialization conflicts on refresh are retryable; begin is matched by exactly one commit or rollback and never followed by a commit after a failed write; after a rolled-back failure the code/token records equal the records before the request and the holder's retry succeeds; attacker variants (foreign client, missing/wrong verifier, replay) stay refused; a revocation that reports success is effective.",
+   note="Sentinel answers (not-found / inactive) at Get*/Revoke* calls are another store state, not a failure (don't-care). Record equality ignores session expiry fields. The transactional store is context-sensitive: a write issued during an open transaction with a context that does not carry it survives the rollback."),
  "C20": dict(level="exploration", engine="ENUM+FAULT", ref="DESIGN.md §5 C20",
    technique="exhaustive enumeration of error x hostile text x format x debug x writer with re-parsing of the bytes written; scan of every storage call of every flow for usable secrets; storage-error text injection at every storage call",
    text="38 errors (all exported RFC errors + a plain Go error) x hint/debug text from 16 hostile fragments (pairs in thorough) x legacy/new format x debug exposure x 9 writers: JSON re-parsed, redirects re-parsed (no injected parameter, state round-trips, no CR/LF in headers), form_post pages tokenised (only the expected inputs, no injected element), status matches code, debug detail only when enabled, no-store/no-cache everywhere. Storage: 16 flows x HMAC/JWT — no key or stored form value equals or contains a client secret, password, PKCE verifier, assertion or complete live code/token. A recognisable storage error text injected at every storage call of 19 flows never reaches the client.",
@@ -117,8 +117,8 @@ checks.update({
 checks.update({
  "C19": dict(level="model_checking", engine="SCHED", ref="DESIGN.md §5 C19",
    technique="stateless depth-first schedule exploration of the real provider + reference store under a cooperative scheduler with iterative preemption bounding; vector-clock happens-before race detection over shim lock edges and overlay access hooks; brute-force linearizability of store-operation triples",
-   text="14 API scenarios (redeem||redeem, refresh||refresh, refresh||revoke||introspect, refresh||revoke, redeem||introspect||authorize, poll||poll, device-auth||poll, PAR-use||PAR-use, authorize||authorize and token||token on a default-constructed and a populated Config, issue||introspect, mint||mint||mint) at lock granularity (preemption bound 2/1 quick, 3/2 thorough) and at storage-call granularity (all interleavings where feasible, else bound 4/6); plus every multiset of 3 store operations per table (332 triples) from a populated state. Every complete execution: no deadlock, no panic, no unordered conflicting access on instrumented fields, no duplicate token value, no inactive token handed out without a concurrent invalidation, and for store triples results + final dump equal some sequential permutation.",
-   note="Races are decided for fields used inside pointer-receiver methods of ory/fosite types (a field of a stateful standard-library type such as hash.Hash counts as written on every use); other memory, and the lazily created JWKS fetcher, are not observed. 2-3 goroutines."),
+   text="16 API scenarios (redeem||redeem, refresh||refresh, refresh||revoke||introspect, refresh||revoke, redeem||introspect||authorize, poll||poll, device-auth||poll, PAR-use||PAR-use, authorize||authorize and token||token on a default-constructed and a populated Config, issue||introspect, PAR-push||device-auth, issue||device-auth, mint||mint||mint) at lock granularity (preemption bound 2/1 quick, 3/2 thorough) and at storage-call granularity (all interleavings where feasible, else bound 4/6); plus every multiset of 3 store operations per table (332 triples) from a populated state. Every complete execution: no deadlock, no panic, no unordered conflicting access on instrumented fields, no duplicate token value, no inactive token handed out without a concurrent invalidation, and for store triples results + final dump equal some sequential permutation.",
+   note="Races are decided for fields used inside pointer-receiver methods of ory/fosite types (a field of a stateful standard-library type such as hash.Hash counts as written on every use) and for package-level variables of slice/array/map/basic types (byte buffers count as written when handed to a call, also through a local slice of them); other memory, and the lazily created JWKS fetcher, are not observed. 2-3 goroutines."),
 })
 
 # properties not (yet) claimed: reason
